@@ -385,7 +385,44 @@ def v4_parameter_translation(ctx) -> None:
 
 
 # ------------------------------------------------------------------------ V6
+def v6b_kept_child_position(ctx) -> None:
+    """EquivalenceRule keeps the one non-empty child of a rule and remembers *where it stood in
+    that rule*: child_idx indexes the original rule's children (and tables); it is what the
+    constructor, the maps and the reversal of the original rule are addressed with.  The
+    equivalence rule's own children are just (child,), in which every position is 0."""
+    P = ctx.P
+    init = P.need_method("EquivalenceRule", "__init__", own=True)
+    f = init.node
+    ctx.analysed(init)
+    rp = [x for x in D.param_names(f) if x != "self"]
+    if len(rp) != 1:
+        raise AnalysisError("V6: EquivalenceRule.__init__(self, rule) expected")
+    r = rp[0]
+    st = [a for a in walk_local(f) if isinstance(a, (ast.Assign, ast.AnnAssign)) and any(is_self_attr(t, "child_idx") for t in (a.targets if isinstance(a, ast.Assign) else [a.target]))]
+    if len(st) != 1 or st[0].value is None:
+        raise AnalysisError("V6: EquivalenceRule.__init__ no longer sets self.child_idx once")
+    v = D.expanded(f, st[0].value)
+    m = PT.match(PT.compile_pattern(f"{r}.children.index(_E_c)"), v)
+    kept = norm(D.expanded(f, ast.parse(m["_E_c"], mode="eval").body)) if m is not None else None
+    if m is not None and kept in (f"{r}.non_empty_children()[0]",):
+        ctx.ok("V6", "EquivalenceRule.child_idx is the position of the kept child among the original rule's children")
+    else:
+        ctx.violation("V6", st[0], f"EquivalenceRule.child_idx must be {r}.children.index(<the kept non-empty child of {r}>); found `{norm(v)[:80]}`: the index is used to "
+                      "address the original rule's tables, maps and reversal, and in the equivalence rule's own children every child sits at 0")
+    tr = P.need_method("EquivalenceRule", "to_reverse_rule", own=True)
+    ctx.analysed(tr)
+    calls = [c for c in walk_local(tr.node) if isinstance(c, ast.Call) and norm(c.func) == "self.original_rule.to_reverse_rule"]
+    if calls and all(len(c.args) == 1 and norm(D.expanded(tr.node, c.args[0])) == "self.child_idx" for c in calls):
+        ctx.ok("V6", "EquivalenceRule.to_reverse_rule reverses the original rule at the kept child's position (child_idx)")
+    elif calls:
+        ctx.violation("V6", calls[0], f"EquivalenceRule.to_reverse_rule reverses the original rule at `{norm(calls[0].args[0]) if calls[0].args else '?'}`; the kept child stands at "
+                      "self.child_idx there (the parameter addresses the equivalence rule's own single child and is always 0)")
+    else:
+        ctx.violation("V6", tr.node, "EquivalenceRule.to_reverse_rule must reverse the original rule at self.child_idx", construct="EquivalenceRule.to_reverse_rule")
+
+
 def v6_derived_constructors(ctx) -> None:
+    v6b_kept_child_position(ctx)
     P = ctx.P
     m = P.need_method("EquivalenceRule", "constructor", own=True)
     f = m.node
